@@ -16,7 +16,7 @@ import (
 // Preflight table (C11): phase contents mixing valid objects with each class of violating object at
 // every position × owner flavour × rollout/teardown.
 
-var pfClasses = []string{"valid", "unknownAPI", "presetOwner", "foreignNS", "clusterNoNS", "clusterOwnNS", "dryReject", "dup"}
+var pfClasses = []string{"valid", "unknownAPI", "presetOwner", "foreignNS", "clusterNoNS", "clusterOwnNS", "dryReject", "dup", "dry500", "dry429"}
 
 type PFRow struct {
 	Flavour  string   // os | cos | ph
@@ -99,6 +99,11 @@ func pfObject(class string, idx int, flavour string) *unstructured.Unstructured 
 		if flavour == "cos" {
 			u.SetNamespace(NS)
 		}
+	case "dry500", "dry429":
+		u = ConfigMap(class+"-"+name, "x")
+		if flavour == "cos" {
+			u.SetNamespace(NS)
+		}
 	case "dup":
 		u = ConfigMap("dupe", "x")
 		if flavour == "cos" {
@@ -136,6 +141,12 @@ func runPFRow(w *World, i int, r PFRow) {
 			}
 			if c == "dup" {
 				hasDup = true
+			}
+			if c == "dry500" {
+				st.DryRunErr[u.GetName()] = "InternalError"
+			}
+			if c == "dry429" {
+				st.DryRunErr[u.GetName()] = "TooManyRequests"
 			}
 			classes[k.String()] = c
 			out = append(out, u)
